@@ -167,7 +167,10 @@ def cleanup_old_processed_messages(
     """Clean up old processed message records."""
     cutoff = datetime.now(UTC) - timedelta(hours=max_age_hours)
     cursor = conn.execute(
-        "DELETE FROM processed_messages WHERE processed_at < :cutoff",
+        # processed_at is written by SQLite as 'YYYY-MM-DD HH:MM:SS' while the cutoff is
+        # an ISO string ('...T...+00:00'); compare as datetimes, not as strings, or every
+        # record from the cutoff's calendar day sorts before it (' ' < 'T').
+        "DELETE FROM processed_messages WHERE datetime(processed_at) < datetime(:cutoff)",
         {"cutoff": cutoff.isoformat()},
     )
     conn.commit()
